@@ -92,12 +92,20 @@ fn mk_list(n: int) -> [int] {
 fn pair(a: str, b: bool) -> { s: str, b: bool } { new { s: a + "!", b: !b } }
 fn sum3(a: int, b: int, c: int) -> int { a * 100 + b * 10 + c }
 fn nothing(x: int) { let unused = x + 1; }
+let last: [int] = [0];
+fn remember(x: int) { last = [x]; }
+fn recall() -> int { last[0] }
+let last_s: [str] = ["", ""];
+fn remember_s(a: str, b: str) { last_s = [a, b]; }
+fn recall_s() -> str { last_s[0] + "/" + last_s[1] }
 fn main() {}
 `
 
 var c16Limits = runtime.CoreLimits{CallStackMaxSize: 64, StackMaxSize: 400, MaxMemorySize: 3000}
 
 type c16Model struct {
+	last    int64
+	lastS   [2]string
 	counter int64
 	log     []int64
 	failed  bool
@@ -112,6 +120,7 @@ type c16Op struct {
 	failKinds []string
 	check     func(v value.Value) string
 	apply     func(m *c16Model)
+	pure      bool // neither reads nor writes globals, prints nothing: may overlap with another invocation
 	reusable  bool // the expected result does not depend on the model state: the same invocation object may be submitted again
 }
 
@@ -193,12 +202,24 @@ func c16GenOp(s *simrt.Sim, m *c16Model, pfault int, force int) c16Op {
 			a := intArgs[pick(len(intArgs), "arg")]
 			return c16Op{fn: "div", args: []value.Value{vInt(a), vInt(0)}, desc: fmt.Sprintf("div(%d,0)", a), failKinds: []string{"fatal:ValueError"}}
 		case 2:
-			return c16Op{reusable: true, fn: "deep", args: []value.Value{vInt(300)}, desc: "deep(300)", failKinds: []string{"fatal:StackOverFlow"}}
+			return c16Op{pure: true, reusable: true, fn: "deep", args: []value.Value{vInt(300)}, desc: "deep(300)", failKinds: []string{"fatal:StackOverFlow"}}
 		default:
 			// handled by the caller: print fault / cancel fault on an ordinary op
 		}
 	}
-	switch pick(21, "op") {
+	switch pick(25, "op") {
+	case 21:
+		x := intArgs[pick(len(intArgs), "arg")]
+		return c16Op{fn: "remember", args: []value.Value{vInt(x)}, desc: fmt.Sprintf("remember(%d)", x), check: wantNull, apply: func(m *c16Model) { m.last = x }}
+	case 22:
+		l := m.last
+		return c16Op{fn: "recall", desc: "recall()", check: wantInt(l)}
+	case 23:
+		a, b := strArgs[pick(len(strArgs), "arg")], strArgs[pick(len(strArgs), "arg")]
+		return c16Op{fn: "remember_s", args: []value.Value{vStr(a), vStr(b)}, desc: fmt.Sprintf("remember_s(%q,%q)", a, b), check: wantNull, apply: func(m *c16Model) { m.lastS = [2]string{a, b} }}
+	case 24:
+		ls := m.lastS
+		return c16Op{fn: "recall_s", desc: "recall_s()", check: wantStr(ls[0] + "/" + ls[1])}
 	case 16:
 		want := append([]int64(nil), m.log...)
 		return c16Op{fn: "get_hist", desc: "get_hist()", check: wantIntList(want)}
@@ -208,11 +229,11 @@ func c16GenOp(s *simrt.Sim, m *c16Model, pfault int, force int) c16Op {
 		for i := int64(0); i < n; i++ {
 			want = append(want, i*2)
 		}
-		return c16Op{reusable: true, fn: "mk_list", args: []value.Value{vInt(n)}, desc: fmt.Sprintf("mk_list(%d)", n), check: wantIntList(want)}
+		return c16Op{pure: true, reusable: true, fn: "mk_list", args: []value.Value{vInt(n)}, desc: fmt.Sprintf("mk_list(%d)", n), check: wantIntList(want)}
 	case 18:
 		a := strArgs[pick(len(strArgs), "arg")]
 		b := pick(2, "arg") == 1
-		return c16Op{reusable: true, fn: "pair", args: []value.Value{vStr(a), vBool(b)}, desc: fmt.Sprintf("pair(%q,%v)", a, b), check: func(v value.Value) string {
+		return c16Op{pure: true, reusable: true, fn: "pair", args: []value.Value{vStr(a), vBool(b)}, desc: fmt.Sprintf("pair(%q,%v)", a, b), check: func(v value.Value) string {
 			o, ok := v.(value.ValueObject)
 			if !ok || len(o.FieldsInternal) != 2 {
 				return fmt.Sprintf("returned %T, want an object with fields s and b", v)
@@ -232,7 +253,7 @@ func c16GenOp(s *simrt.Sim, m *c16Model, pfault int, force int) c16Op {
 		}}
 	case 19:
 		a, b, c := int64(pick(10, "arg")), int64(pick(10, "arg")), int64(pick(10, "arg"))
-		return c16Op{reusable: true, fn: "sum3", args: []value.Value{vInt(a), vInt(b), vInt(c)}, desc: fmt.Sprintf("sum3(%d,%d,%d)", a, b, c), check: wantInt(a*100 + b*10 + c)}
+		return c16Op{pure: true, reusable: true, fn: "sum3", args: []value.Value{vInt(a), vInt(b), vInt(c)}, desc: fmt.Sprintf("sum3(%d,%d,%d)", a, b, c), check: wantInt(a*100 + b*10 + c)}
 	case 20:
 		x := intArgs[pick(len(intArgs), "arg")]
 		return c16Op{reusable: true, fn: "nothing", args: []value.Value{vInt(x)}, desc: fmt.Sprintf("nothing(%d)", x), check: wantNull}
@@ -256,10 +277,10 @@ func c16GenOp(s *simrt.Sim, m *c16Model, pfault int, force int) c16Op {
 		return c16Op{fn: "push", args: []value.Value{vInt(x)}, desc: fmt.Sprintf("push(%d)", x), check: wantInt(n), apply: func(m *c16Model) { m.log = append(m.log, x) }}
 	case 3:
 		a, b, c := strArgs[pick(len(strArgs), "arg")], strArgs[pick(len(strArgs), "arg")], strArgs[pick(len(strArgs), "arg")]
-		return c16Op{reusable: true, fn: "concat", args: []value.Value{vStr(a), vStr(b), vStr(c)}, desc: fmt.Sprintf("concat(%q,%q,%q)", a, b, c), check: wantStr(a + "|" + b + "|" + c)}
+		return c16Op{pure: true, reusable: true, fn: "concat", args: []value.Value{vStr(a), vStr(b), vStr(c)}, desc: fmt.Sprintf("concat(%q,%q,%q)", a, b, c), check: wantStr(a + "|" + b + "|" + c)}
 	case 4:
 		n := intArgs[pick(len(intArgs), "arg")]
-		return c16Op{reusable: true, fn: "obj", args: []value.Value{vInt(n)}, desc: fmt.Sprintf("obj(%d)", n), check: func(v value.Value) string {
+		return c16Op{pure: true, reusable: true, fn: "obj", args: []value.Value{vInt(n)}, desc: fmt.Sprintf("obj(%d)", n), check: func(v value.Value) string {
 			o, ok := v.(value.ValueObject)
 			if !ok {
 				return fmt.Sprintf("returned %T, want object", v)
@@ -284,27 +305,27 @@ func c16GenOp(s *simrt.Sim, m *c16Model, pfault int, force int) c16Op {
 		if n >= 0 && n < 100 {
 			want = n * 2
 		}
-		return c16Op{reusable: true, fn: "ret_in_loop", args: []value.Value{vInt(n)}, desc: fmt.Sprintf("ret_in_loop(%d)", n), check: wantInt(want)}
+		return c16Op{pure: true, reusable: true, fn: "ret_in_loop", args: []value.Value{vInt(n)}, desc: fmt.Sprintf("ret_in_loop(%d)", n), check: wantInt(want)}
 	case 6:
 		n := []int64{3, 0, -4, 1}[pick(4, "arg")]
 		want := n
 		if n <= 0 {
 			want = -n
 		}
-		return c16Op{reusable: true, fn: "ret_in_try", args: []value.Value{vInt(n)}, desc: fmt.Sprintf("ret_in_try(%d)", n), check: wantInt(want)}
+		return c16Op{pure: true, reusable: true, fn: "ret_in_try", args: []value.Value{vInt(n)}, desc: fmt.Sprintf("ret_in_try(%d)", n), check: wantInt(want)}
 	case 7:
 		n := []int64{0, 1, 5, 20}[pick(4, "arg")]
-		return c16Op{reusable: true, fn: "ret_in_while", args: []value.Value{vInt(n)}, desc: fmt.Sprintf("ret_in_while(%d)", n), check: wantStr(fmt.Sprintf("w%d", n))}
+		return c16Op{pure: true, reusable: true, fn: "ret_in_while", args: []value.Value{vInt(n)}, desc: fmt.Sprintf("ret_in_while(%d)", n), check: wantStr(fmt.Sprintf("w%d", n))}
 	case 8:
 		n := intArgs[pick(len(intArgs), "arg")]
-		return c16Op{reusable: true, fn: "catcher", args: []value.Value{vInt(n)}, desc: fmt.Sprintf("catcher(%d)", n), check: wantStr(fmt.Sprintf("c%d", n))}
+		return c16Op{pure: true, reusable: true, fn: "catcher", args: []value.Value{vInt(n)}, desc: fmt.Sprintf("catcher(%d)", n), check: wantStr(fmt.Sprintf("c%d", n))}
 	case 9:
 		a := intArgs[pick(len(intArgs), "arg")]
 		b := []int64{1, -1, 2, 7, 1 << 20}[pick(5, "arg")]
 		return c16Op{reusable: true, fn: "div", args: []value.Value{vInt(a), vInt(b)}, desc: fmt.Sprintf("div(%d,%d)", a, b), check: wantInt(a / b)}
 	case 10:
 		n := []int64{0, 1, 5, 30}[pick(4, "arg")]
-		return c16Op{reusable: true, fn: "deep", args: []value.Value{vInt(n)}, desc: fmt.Sprintf("deep(%d)", n), check: wantInt(n)}
+		return c16Op{pure: true, reusable: true, fn: "deep", args: []value.Value{vInt(n)}, desc: fmt.Sprintf("deep(%d)", n), check: wantInt(n)}
 	case 11:
 		n := []int64{0, 1, 2, 4}[pick(4, "arg")]
 		return c16Op{reusable: true, fn: "fanout", args: []value.Value{vInt(n)}, desc: fmt.Sprintf("fanout(%d)", n), check: wantInt(n), apply: func(m *c16Model) {
@@ -319,7 +340,7 @@ func c16GenOp(s *simrt.Sim, m *c16Model, pfault int, force int) c16Op {
 		b := pick(2, "arg") == 1
 		f := []float64{0.5, 1.0, 2.5, -3.0}[pick(4, "arg")]
 		want := !b && f > 1.0
-		return c16Op{reusable: true, fn: "flag", args: []value.Value{vBool(b), vFloat(f)}, desc: fmt.Sprintf("flag(%v,%v)", b, f), check: func(v value.Value) string {
+		return c16Op{pure: true, reusable: true, fn: "flag", args: []value.Value{vBool(b), vFloat(f)}, desc: fmt.Sprintf("flag(%v,%v)", b, f), check: func(v value.Value) string {
 			bv, ok := v.(value.ValueBool)
 			if !ok {
 				return fmt.Sprintf("returned %T, want bool", v)
@@ -426,7 +447,33 @@ func runC16(t *testing.T, spec RunSpec) *Verdict {
 			}
 			var result runtime.FunctionInvocationResult
 			var core *runtime.Core
+			if !m.failed && op.pure && len(op.failKinds) == 0 && !cancelArmed && s.Choose(5, "overlap") == 1 {
+				// two invocations in flight at once: SpawnAsync twice, one Wait, then both results
+				op2 := c16GenOp(s, m, 0, []int{3, 19, 13, 17, 18}[s.Choose(5, "op2")])
+				inv2, err2 := c16Invocation(prog, op2.fn, op2.args)
+				if err2 == nil && op2.pure {
+					s.Probe("overlapping-invocations")
+					history[len(history)-1] += " || " + op2.desc
+					c1 := env.vm.SpawnAsync(inv, nil, nil, nil)
+					c2 := env.vm.SpawnAsync(inv2, nil, nil, nil)
+					num, i := env.vm.Wait()
+					r1 := env.vm.HandleTermination(c1, inv, i, num)
+					r2 := env.vm.HandleTermination(c2, inv2, i, num)
+					if r2.Exception != nil {
+						failNow("wrong-result", "call-result", op2.fn+":overlap-failed", fmt.Sprintf("overlapping call %s failed: %s", op2.desc, firstLine(r2.Exception.Interrupt.Message())))
+						return
+					}
+					if msg := op2.check(r2.ReturnValue); msg != "" {
+						failNow("wrong-result", "call-result", op2.fn+":overlap", fmt.Sprintf("overlapping call %s (in flight together with %s) %s", op2.desc, op.desc, msg))
+						return
+					}
+					result = r1
+					core = c1
+					mode = -1
+				}
+			}
 			switch mode {
+			case -1:
 			case 0:
 				result = env.vm.SpawnSync(inv, nil, nil)
 			default:
